@@ -339,6 +339,40 @@ CLAIMED["C03"] = dict(
    technique="Coq proof (Coquelicot substitution rule, bin surjectivity) over regenerated formulas + quadrature search",
    design="DESIGN.md section 4, C03")
 
+# additions made after the seeded-change rounds (DESIGN.md section 13)
+EXTRA = {
+ "C04": "The search also uses ConditionalDiagonalNormal bases whose draws reveal their context row, alone and under flows.",
+ "C05": "mean() is also checked as the mode of the density (gradient of log_prob vanishes there) for flat and structured "
+        "context layouts and multi-dimensional events.",
+ "C08": "The bodies of CompositeTransform.__init__/_cascade/forward/inverse and InverseTransform.__init__/forward/inverse are "
+        "regenerated from transforms/base.py on every run and proved equal to the model's combinators (the inverse wrapper "
+        "stores exactly its argument); stacks of up to four inverse wrappers are always among the programs.",
+ "C11": "The search also covers weight_and_logabsdet(), weight_inverse_and_logabsdet() and cached passes in both orders.",
+ "C12": "The four unconstrained_*_spline wrappers are regenerated statement by statement into per-element functions and "
+        "proved to hand every configured value to the inner spline whatever the rest of the batch holds; the search adds "
+        "mixed-scale batches and spline configurations with non-default minimum bin sizes / derivative.",
+ "C13": "The table generator computes alias summaries (torchutils helpers, class methods, identity lambdas), gives private "
+        "methods' parameters the origins of their call sites and records in-place methods used inside expressions; the dynamic "
+        "check also draws one sample per context row, batched and not (where repeat_rows / split return views).",
+ "C16": "Gradients are also checked through the inverse direction of every invertible catalogue entry. Known finding: the UMNN "
+        "inverse (bisection) has no usable gradient.",
+ "C17": "Tail bounds that are not representable in float32 (0.1, 0.7, 1.1, 3.3) are part of the search.",
+ "C18": "Row pairing under batching is searched with context-revealing distributions (row i holds draws for context row i).",
+ "C19": "The search also runs the linear family at widths 3-48 with diagonal parameters in one-sided boxes, cache on and off, "
+        "both orders.",
+}
+OVERRIDE = {
+ "C08": dict(note="Trusted: Coq kernel (no axioms); translator (Gen/Wrappers.v); extraction; harness. The multiscale wrapper is "
+                  "tied by the exact correspondence run only. Library leaf transforms are covered by C01/C02; here leaves are abstract.",
+             technique="Coq proof (induction over part lists / stages, axiom-free) + AST translator + extracted-model correspondence"),
+ "C12": dict(technique="Coq proof (map / chunks / concat lemmas, axiom-free) + AST translator (tail wrappers) + extracted-pipeline "
+                       "correspondence + row-vs-batch search"),
+}
+for _pid, _t in EXTRA.items():
+    CLAIMED[_pid]["text"] += " " + _t
+for _pid, _d in OVERRIDE.items():
+    CLAIMED[_pid].update(_d)
+
 def main():
     checks = []
     for pid in ALL:
